@@ -7,6 +7,7 @@ import sys
 from .common import REAL_BASE, STUB_BASE, Result, Space, SimDeadlock, SimStepLimit, World, rand_bytes, det_bytes
 from .c01 import rand_state, to_dev_state
 from refmodel.device import RefDevice
+from refmodel.hosts import RefHost, good_reply
 from simkit.world import run_sync
 
 ID = "C20"
@@ -19,7 +20,7 @@ RULE = ("A case is an argv for `msmart-ng control <host> [--id --token --key] se
         "or next to a valid setting. Oracle: exit status, device state after = before + exactly the requested changes, "
         "display toggle on the wire iff the value differs, and for invalid cases no connection attempt at all. "
         "Distinct = distinct argv+initial state; non-trivial = every case."
-        " Later additions: --capabilities against units without custom fan speeds (or that never answer the capability query) while an unnamed fan speed is reported.")
+        " Later additions: `control --auto` against a V2 unit (discovery inside the CLI, 5 s window) with a remote-control change of an unnamed setting inside the window; --capabilities against units without custom fan speeds (or that never answer the capability query) while an unnamed fan speed is reported.")
 ASSUMPTIONS = [
     "an exception escaping cli.main() is what CPython turns into exit status 1: it counts as 'rejected with a non-zero "
     "exit' (e.g. operational_mode='fan only' -> SyntaxError, a setting without '=' -> ValueError)",
@@ -148,12 +149,29 @@ def run(plan):
         # a device that prefixes every response with an unsolicited report of its current state (same segment)
         dev.default_directive = {"pre": ["unsol_state"]}
     w.net.listen(HOSTNAME, 6444, dev)
+    auto = bool(cfg.get("auto")) and version == 2
+    if auto:
+        # `control --auto`: the CLI finds the unit by a discovery probe (5 s listening window) and connects to what
+        # answered.  While the window is open somebody else (remote control, app) may change the unit: the settings
+        # not named on the command line stay as the unit reports them when the CLI gets to work
+        w.net.add_udp_host(HOSTNAME, RefHost(HOSTNAME, [(cfg.get("reply_delay", 0.01), 6445, good_reply(
+            2, cfg["device_id"], HOSTNAME, 6444, "000000P0000000Q1%012X0000" % cfg["device_id"], "net_ac_%04X" % (cfg["device_id"] & 0xFFFF))
+        )]))
+        w.fire("cli_auto_discovery")
+        if cfg.get("remote_during_discovery"):
+            def _remote(changes=dict(cfg["remote_during_discovery"])):
+                dev.state.update(changes)
+                w.fire("remote_control_during_discovery_window")
+            w.loop.call_later(cfg.get("remote_at", 2.5), _remote)
     before = dict(dev.state)
+    before.update(cfg.get("remote_during_discovery") or {} if auto else {})
     props_before = dict(dev.props)
     argv = ["msmart-ng", "control", HOSTNAME]
-    if version == 3 or cfg.get("give_id"):
+    if auto:
+        argv.append("--auto")
+    elif version == 3 or cfg.get("give_id"):
         argv += ["--id", str(cfg["device_id"])]
-    if version == 3:
+    if version == 3 and not auto:
         argv += ["--token", token.hex(), "--key", key.hex()]
     if cfg.get("capabilities"):
         argv.append("--capabilities")
@@ -284,6 +302,19 @@ def space(tier):
         if any(e[0] == "display" for e in effects) and rng.random() < 0.3:
             st = cfg["state"]
             cfg["remote_during_toggle"] = {k: (not st[k]) for k in rng.sample(["freeze", "eco", "sleep", "purifier", "power"], rng.randint(1, 2))}
+        if cfg["version"] == 2 and j % 8 == 5:
+            # every eighth V2 case goes through `--auto` (discovery inside the CLI); in two of three of those the
+            # remote control changes the unit somewhere inside the discovery window
+            cfg["auto"] = True
+            cfg["reply_delay"] = [0.01, 0.4, 2.0][(j // 8) % 3]
+            if True:
+                st = cfg["state"]
+                named = {e[1] for e in effects if e[0] == "state"} | ({"aux_heat", "indep_aux"} if any(e[0] == "aux" for e in effects) else set())
+                pool = [k for k in ["freeze", "eco", "sleep", "purifier", "power", "display_on"] if k not in named]
+                if (j // 24) % 3 != 0 and pool:
+                    ks = [pool[(j // 72) % len(pool)]]
+                    cfg["remote_during_discovery"] = {k: (not st[k]) for k in ks}
+                    cfg["remote_at"] = [0.2, 1.0, 2.5, 4.0, 4.9][(j // 8) % 5]
         if cfg["capabilities"] and any(e[0] not in ("state", "display") for e in effects):
             cfg["capabilities"] = False      # keep property ids independent of a capability profile
         elif cfg["capabilities"] or (all(e[0] in ("state", "display") for e in effects) and rng.random() < 0.2):
